@@ -238,6 +238,13 @@ fn outside_start_block(lon: f64, lat: f64, r: f64, depth: u8, h: u64) -> Option<
 pub const KF1: &str = "start-block-too-small-in-polar-cap";
 
 /// KF-1 predicate: a function of the query and of the missed cell only.
+/// Lower end of the radius band of KF-1, as a fraction of the tabulated limit.  The narrowest cells
+/// of a depth (located by exhaustive search in C16, depths 0..=8, and by the python derivation
+/// recorded in known_findings.json up to depth 10) have an edge-to-opposite-edge distance of
+/// 0.9997 (depth 1), 0.990 (3), 0.979 (5), 0.9748 (7), 0.9733 (8), 0.9716 (10) x the table entry,
+/// converging to ~0.9704: the table is optimistic by up to 3 %, not 1 % as first recorded.
+pub const KF1_BAND_LO: f64 = 0.97;
+
 pub fn kf1_matches(lon: f64, lat: f64, r: f64, depth: u8, missed: u64) -> bool {
   let t = thresholds();
   let k = match ref_start_depth(r) {
@@ -248,7 +255,7 @@ pub fn kf1_matches(lon: f64, lat: f64, r: f64, depth: u8, missed: u64) -> bool {
   if std::env::var("HPXMC_DEBUG").is_ok() {
     eprintln!("kf1: k={} ratio={} lat+r={} trans={} outside_block={:?} missed={}/{}", k, ratio, lat.abs() + r, transition_lat(), outside_start_block(lon, lat, r, depth, missed), depth, missed);
   }
-  if !(ratio >= 0.98 && ratio < 1.0) {
+  if !(ratio >= KF1_BAND_LO && ratio < 1.0) {
     return false;
   }
   if !(lat.abs() + r >= transition_lat()) {
@@ -742,6 +749,46 @@ pub fn run(ctx: &Ctx, c06: bool) -> i32 {
     }
     part
   });
+  // centres just outside an edge of the NARROWEST cells of the start depth k (exhaustive search,
+  // c16::narrowest_cells), radii in and below the band of KF-1, coverage depth k and k + 1
+  let mut total = total;
+  {
+    let kmax: u8 = if quick { 4 } else { 6 };
+    let njobs = kmax as usize + 1;
+    let narrow = par_jobs(njobs, |k| {
+      let k = k as u8;
+      let mut part = Part::new();
+      let t = thresholds();
+      for (h, pair, _) in crate::c16::narrowest_cells(k, 2) {
+        for edge in [2 * pair, 2 * pair + 1] {
+          for (lon, lat) in crate::c16::edge_points(k, h, edge, 8, 1e-3) {
+            for f in [0.95, 0.965, 0.975, 0.985, 0.995, 0.999999] {
+              for d in [k, k + 1] {
+                if d > dmax.max(5) {
+                  continue;
+                }
+                let q = ConeQ { variant: 0, depth: d, delta: 0, lon, lat, r: t[k as usize] * f };
+                part.stratum("narrowest-cell-centres", 1, 1);
+                if c06 {
+                  if let Some(v) = check_c06(&q, &mut part) {
+                    part.viol(v);
+                  }
+                } else {
+                  match check_c05(&q, listed_kf1, &mut part) {
+                    Verdict::Ok => {}
+                    Verdict::Known(kf, ex) => part.known(kf, ex),
+                    Verdict::Bad(v) => part.viol(v),
+                  }
+                }
+              }
+            }
+          }
+        }
+      }
+      part
+    });
+    total.merge(narrow);
+  }
   let mut extra = Map::new();
   // the recorded witness of KF-1 is re-executed on every run (information only)
   if !c06 {
